@@ -3,11 +3,33 @@ use crate::json::J;
 use crate::par::Space;
 use crate::Tier;
 
+pub mod asmprops;
 pub mod c03;
+pub mod c12conv;
+pub mod lineprops;
+pub mod msgjudge;
+pub mod msgprops;
+pub mod msgspaces;
 
 pub fn spaces(prop: &str, tier: Tier) -> Vec<Space> {
     match prop {
+        "C02" => lineprops::c02(tier),
+        "C07" => lineprops::c07(tier),
+        "C08" => lineprops::c08(tier),
+        "C19" => lineprops::c19(tier),
         "C03" => c03::spaces(tier),
+        "C04" => msgprops::c04(tier),
+        "C05" => asmprops::c05(tier),
+        "C06" => asmprops::c06(tier),
+        "C17" => asmprops::c17(tier),
+        "C09" => msgprops::c09(tier),
+        "C10" => msgprops::c10(tier),
+        "C11" => msgprops::c11(tier),
+        "C12" => msgprops::c12(tier),
+        "C13" => msgprops::c13(tier),
+        "C14" => msgprops::c14(tier),
+        "C15" => msgprops::c15(tier),
+        "C16" => msgprops::c16(tier),
         _ => {
             eprintln!("unknown property {}", prop);
             std::process::exit(2)
@@ -16,8 +38,12 @@ pub fn spaces(prop: &str, tier: Tier) -> Vec<Space> {
 }
 
 /// Explicit-state exploration parts (not index-addressable): returns a JSON report.
-pub fn explore(_prop: &str, _tier: Tier) -> Option<J> {
-    None
+pub fn explore(prop: &str, tier: Tier) -> Option<J> {
+    match prop {
+        "C05" | "C06" => Some(asmprops::run_explorer(prop, tier, false)),
+        "C01" | "C02" | "C17" | "C18" => Some(asmprops::run_explorer(prop, tier, true)),
+        _ => None,
+    }
 }
 
 pub fn replay_history(_args: &[String]) -> i32 {
